@@ -16,7 +16,8 @@ COMPONENTS = {
         "seeded scheduler and clients",
         "listeners and conversion callables (peers)",
         "reference models and oracles",
-        "KeyboardInterrupt line tracer (sys.settrace)",
+        "KeyboardInterrupt line tracer (sys.settrace), interrupt sweeps in forked grandchildren",
+        "fresh-interpreter successor of a restart (sim/xrestart.py)",
     ],
     "stubbed_barril_code": [],
 }
